@@ -16,8 +16,11 @@ open Mlevel_cmd
    malformed tuples and records a validation error): the model of the repaired tree (call_fixed / rbuild_fixed of coq/Model/Routes.v) is the default;
    SELEN_ROUTES_PREFIX=1 selects the model of the tree before them (used for the refutation witnesses only). *)
 let fixed_mode = not (try Sys.getenv "SELEN_ROUTES_PREFIX" = "1" with Not_found -> false)
-let rbuild prog = if fixed_mode then rbuild_fixed prog else rbuild prog
-let rexec s m = if fixed_mode then rexec_fixed s m else rexec s m
+(* SELEN_ROUTES_EXT_FIXED=1: the model of the tree AFTER the proposed repairs fixes/routes_ext/routes_table_nd_arity.patch and
+   routes_element_nd_index.patch (call_ext_fixed of coq/Model/Routes.v); the default is the current tree *)
+let ext_fixed = fixed_mode   (* both patches are in /repo: b2362f9, a46069b *)
+let rbuild prog = if ext_fixed then rbuild_ext_fixed prog else if fixed_mode then rbuild_fixed prog else rbuild prog
+let rexec s m = if ext_fixed then rexec_ext_fixed s m else if fixed_mode then rexec_fixed s m else rexec s m
 let kf_noop_route r = if fixed_mode then false else kf_noop_route r
 let kf_felement_bounds r s = if fixed_mode then false else kf_felement_bounds r s
 
@@ -31,8 +34,20 @@ let parse_tuples (tok : string) : z list list =
   else List.map (fun tp -> if tp = "e" then [] else List.map (fun v -> z_of_int (int_of_string v)) (String.split_on_char ':' tp))
       (String.split_on_char '/' tok)
 
+let split_str (sep : string) (s : string) : string list = Str.split_delim (Str.regexp_string sep) s
+let parse_mat (tok : string) : nat list list =
+  if tok = "-" || tok = "E" then [] else List.map (fun r -> if r = "e" then [] else vlist r) (String.split_on_char '/' tok)
+let parse_cube (tok : string) : nat list list list =
+  if tok = "-" then [] else List.map parse_mat (split_str "//" tok)
+
 let parse_route (t : string list) : route =
   match t with
+  | ["amin"; xs] -> RArrMin (vlist xs) | ["amax"; xs] -> RArrMax (vlist xs)
+  | ["sumiter"; xs] -> RSumIter (if xs = "-" then [] else List.map opnd (String.split_on_char ',' xs))
+  | ["element2d"; mat; r; c; v] -> RElement2D (parse_mat mat, var_ix r, var_ix c, var_ix v)
+  | ["element3d"; cube; d; r; c; v] -> RElement3D (parse_cube cube, var_ix d, var_ix r, var_ix c, var_ix v)
+  | ["table2d"; mat; ts] -> RTable2D (parse_mat mat, parse_tuples ts)
+  | ["table3d"; cube; ts] -> RTable3D (parse_cube cube, parse_tuples ts)
   | ["add"; a; b] -> RAdd (opnd a, opnd b) | ["sub"; a; b] -> RSub (opnd a, opnd b)
   | ["mul"; a; b] -> RMul (opnd a, opnd b) | ["mod"; a; b] -> RMod (opnd a, opnd b)
   | ["abs"; a] -> RAbs (opnd a)
@@ -69,6 +84,24 @@ let parse_rpost (p : string) : rstmt option =
   | ["blin"; op; cs; xs; k] -> (match parse_post (String.concat " " ["lin"; op; cs; xs; k]) with Some s -> Some (SB s) | None -> None)
   | _ -> (match parse_post p with Some s -> Some (SB s) | None -> None)
 
+(* array-factory declarations ints(n,lo,hi) / ints2d(r,c,lo,hi) / ints3d(d,r,c,lo,hi) / bools(n) / bools2d(r,c) / bools3d(d,r,c) *)
+let parse_rdecl (d : string) : rstmt =
+  match head_args d with
+  | Some (h, args) ->
+    let a = List.map (fun x -> int_of_string (String.trim x)) args in
+    let n i = nat_of_int (List.nth a i) and z i = z_of_int (List.nth a i) in
+    (match h with
+     | "ints" -> SArr ([n 0], z 1, z 2)
+     | "ints2d" -> SArr ([n 0; n 1], z 2, z 3)
+     | "ints3d" -> SArr ([n 0; n 1; n 2], z 3, z 4)
+     | "bools" -> SArr ([n 0], z_of_int 0, z_of_int 1)
+     | "bools2d" -> SArr ([n 0; n 1], z_of_int 0, z_of_int 1)
+     | "bools3d" -> SArr ([n 0; n 1; n 2], z_of_int 0, z_of_int 1)
+     | _ -> failwith ("bad factory " ^ h))
+  | None -> SB (parse_decl d)
+let parse_rdecls (s : string) : rstmt list =
+  List.filter_map (fun d -> let d = String.trim d in if d = "" then None else Some (parse_rdecl d)) (String.split_on_char '|' s)
+
 type rcase = { rprog : rstmt list; rentry : string list }
 
 let parse_rcase (line : string) : rcase =
@@ -77,14 +110,14 @@ let parse_rcase (line : string) : rcase =
   | decls :: rest ->
     let posts = ref [] and entry = ref ["enum"] in
     List.iter (fun p ->
-      if p <> "" then
+      if p <> "" && not (empty_new p) then
         match parse_rpost p with
         | Some s -> posts := s :: !posts
         | None ->
           (match words p with
            | ("enum" | "first" | "min" | "max") :: _ as e -> entry := e
            | _ -> failwith ("bad post " ^ p))) rest;
-    { rprog = List.map (fun s -> SB s) (parse_decls decls) @ List.rev !posts; rentry = !entry }
+    { rprog = parse_rdecls decls @ List.rev !posts; rentry = !entry }
 
 (* ---- printing ---- *)
 let ck = function KAtLeast -> "atleast" | KAtMost -> "atmost" | KExactly -> "exactly"
@@ -146,6 +179,9 @@ let analyse (prog : rstmt list) : handle list * sem_item list =
     | SB (SInt (lo, hi)) -> push (HDecl (ilist (drange lo hi)))
     | SB (SSet vs) -> push (HDecl (ilist (dof_values vs)))
     | SB SBool -> push (HDecl [0; 1])
+    | SArr (dims, lo, hi) ->
+      let n = List.fold_left (fun a d -> a * int_of_nat d) 1 dims in
+      for _ = 1 to n do push (HDecl (ilist (arr_dom lo hi))) done
     | SB (SApi (f, x, y)) -> push (HApi (f, int_of_nat x, int_of_nat y))
     | SB st -> (match stmt_cons st with Some c -> items := ICons c :: !items | None -> ())
     | SCall r ->
@@ -238,13 +274,16 @@ let rknown_class (prog : rstmt list) : string =
        if not fixed_mode && kf_linreif_len r then set "linreif_len";   (* repaired by e45322d *)
        if kf_linreif_zero r then set "lin_zero_coeffs";
        if kf_gcc_len r then set "gcc_len";
+       if not ext_fixed && kf_element_nd_index r st then set "element_nd_index";
+       if not ext_fixed && kf_element_nd_dummy r then set "element_nd_index";      (* same finding: the first row's length stands for every row's *)
+       if not ext_fixed && kf_table_nd_arity r then set "table_nd_arity";
        if kf_nonbool_arg r st then set "nonbool_arg"
-     | SB _ -> ());
+     | SB _ | SArr _ -> ());
     m := rexec s !m) prog;
   let m = !m in
   if !cls <> "" then "BAD:" ^ !cls ^ " "
   else begin
-    let base = List.filter_map (function SB s -> Some s | SCall _ -> None) prog in
+    let base = List.filter_map (function SB s -> Some s | SCall _ | SArr _ -> None) prog in
     let cs = posted base in
     (* an auxiliary variable of a fluent tree whose computed range exceeds MAX_SPARSE_SET_DOMAIN_SIZE is
        represented by the empty domain (Model/Lower.v aux_dom): an empty domain of a variable that is
@@ -272,6 +311,10 @@ let run_rsolve (line : string) : string =
   else if m.rcallerr then mp ^ " ||| expcallerr"
   else if m.rverr then
     mp ^ " ||| " ^ (if c.rentry = ["enum"] && not fixed_mode then "BAD:enum_ignores_verr " else "") ^ "experr"
+  else if fixed_mode && List.exists (function SCall r -> kf_table_nd_arity r | _ -> false) c.rprog then
+    (* Model::table documents (e2596cd) that a tuple of the wrong arity is an InvalidConstraint error of the solving call;
+       table_2d / table_3d post the same Table propagators without recording anything *)
+    mp ^ " ||| BAD:table_nd_arity experr"
   else begin
     let spec = brute c.rprog in
     let obj = match c.rentry with
